@@ -217,7 +217,8 @@ def run_job(job):
         "nref": nref, "nref_cached": ncached, "wall": time.monotonic() - t0,
         "steps": [{k: r.get(k) for k in ("k", "ok", "exc", "digest", "lines", "probes",
                                          "fault_fired", "fault_at", "clock_reads", "sim_s",
-                                         "draws", "reseeds", "rng_before")} for r in recs],
+                                         "draws", "reseeds", "rng_before", "obj_after", "K", "n_sub",
+                                         "n_raised", "n_returned", "n_fired")} for r in recs],
     }
     if job.get("keep_recs"):
         out["recs"] = recs
